@@ -255,14 +255,16 @@ def h_history(shape):
 # ------------------------------------------------------------------------------------------------ live-object histories
 # A DateDataParser (or an earlier configuration) is still alive while OTHER calls are made; then it is used (again).
 # One sequence description drives both the symbolic run and the native replay.
-OLDER = ["search-same-settings", "search-then-new-parser", "construct-other-base", "permuted-defaults", "equal-effective-settings",
+OLDER = ["search-same-settings", "search-then-new-parser", "same-string-other-skip-tokens", "normalize-off-other-skip-tokens", "construct-other-base", "permuted-defaults", "equal-effective-settings",
          "format-strictness-history", "skip-token-concatenation", "many-settings-then-default", "typed-vs-text-value"]
 _SEARCH_TEXT = "It was signed on March 5 2020 and published 2 days later"
 
 
 def _older_fields(kind):
     """name -> (lo, hi) of the symbolic decimal fields of the probing call"""
-    return {"search-same-settings": {"n": (0, 99)}, "search-then-new-parser": {"n": (0, 99)}, "construct-other-base": {},
+    return {"search-same-settings": {"n": (0, 99)}, "search-then-new-parser": {"n": (0, 99)},
+            "same-string-other-skip-tokens": {"Y": (1000, 9999), "d": (1, 28)},
+            "normalize-off-other-skip-tokens": {"Y": (1000, 9999), "d": (1, 28)}, "construct-other-base": {},
             "permuted-defaults": {"d": (1, 28)}, "equal-effective-settings": {"Y": (1000, 9999), "m": (1, 12), "d": (1, 28)},
             "format-strictness-history": {"Y": (1000, 9999)}, "skip-token-concatenation": {"Y": (1000, 9999), "d": (1, 28)},
             "many-settings-then-default": {"n": (0, 99)}, "typed-vs-text-value": {"Y": (1000, 9999), "m": (1, 12), "d": (1, 28)}}[kind]
@@ -280,6 +282,14 @@ def _older_seq(kind, DDP, search, S, base):
         X = {"TIMEZONE": "UTC"}
         search(_SEARCH_TEXT, languages=["en"], settings=dict(X))
         return DDP(languages=["en"], settings=dict(X)).get_date_data(S([("n", 2), " days ago"]))
+    if kind == "same-string-other-skip-tokens":
+        t = S([("d", 2), " April ", ("Y", 4), " de"])
+        DDP(languages=["en"]).get_date_data(t)                                  # 'de' is not a skip token here
+        return DDP(languages=["en"], settings={"SKIP_TOKENS": ["de"]}).get_date_data(t)
+    if kind == "normalize-off-other-skip-tokens":
+        DDP(languages=["en"], settings={"NORMALIZE": False}).get_date_data("12 March 2015")
+        return DDP(languages=["en"], settings={"NORMALIZE": False, "SKIP_TOKENS": ["foo"]}).get_date_data(
+            S(["foo ", ("d", 2), " April ", ("Y", 4)]))
     if kind == "construct-other-base":
         X = {"PREFER_MONTH_OF_YEAR": "current", "PREFER_DAY_OF_MONTH": "current"}
         p1 = DDP(languages=["en"], settings=dict(X, RELATIVE_BASE=base("b")))
@@ -347,7 +357,7 @@ def h_older(kind):
         elif kind == "permuted-defaults":
             loc = dd.locale
             ok = z3.And(C.dt_is(do, 2020, 4, v["d"]), z3.BoolVal(getattr(loc, "shortname", loc) == "pt"))
-        elif kind == "skip-token-concatenation":
+        elif kind in ("skip-token-concatenation", "same-string-other-skip-tokens", "normalize-off-other-skip-tokens"):
             ok = C.dt_is(do, v["Y"], 4, v["d"])
         else:
             ok = C.dt_is(do, v["Y"], v["m"], v["d"])
@@ -355,7 +365,9 @@ def h_older(kind):
     return fn
 
 
-REPEAT = ["search-twice-normalize-off", "parse-after-foreign-parse"]
+REPEAT = ["search-twice-normalize-off", "parse-after-foreign-parse", "search-languages-reordered", "caller-arguments-unchanged",
+          "calendars-same-string"]
+_ES_TEXT2 = "La reunión en España será el 3 de marzo de 2021"
 _ES_TEXT = "El miércoles 12 de marzo de 2014 llegó"
 
 
@@ -376,6 +388,27 @@ def _repeat_seq(kind, DDP, search, parse, S):
         first = search(_ES_TEXT, settings={"NORMALIZE": False})
         again = search(_ES_TEXT, settings={"NORMALIZE": False})
         return again, first
+    if kind == "search-languages-reordered":
+        search(_ES_TEXT2, languages=["de", "es"], add_detected_language=True)        # the same languages in the other order first
+        got = search(_ES_TEXT2, languages=["es", "de"], add_detected_language=True)
+        return got, [("3 de marzo de 2021", _dt.datetime(2021, 3, 3), "es")]
+    if kind == "calendars-same-string":
+        from dateparser.calendars.hijri import HijriCalendar
+        from dateparser.calendars.jalali import JalaliCalendar
+        t = " 17-01-1437 \u0647\u0640 08:30 \u0645\u0633\u0627\u0621\u064b"        # a Hijri date-time with an Arabic PM marker
+        JalaliCalendar(t).get_date()                    # the other calendar sees the string first
+        got = HijriCalendar(t).get_date()
+        return (got.date_obj if got is not None else None), _dt.datetime(2015, 10, 30, 20, 30)
+    if kind == "caller-arguments-unchanged":
+        import copy
+        st = {"DEFAULT_LANGUAGES": ["fr", "en"], "SKIP_TOKENS": ["t", "x"], "PARSERS": ["relative-time", "absolute-time"],
+              "REQUIRE_PARTS": ["year", "day"]}
+        langs, fmts = ["de", "it"], ["%d.%m.%Y", "%Y"]
+        before = copy.deepcopy((st, langs, fmts))
+        DDP(languages=langs, settings=st).get_date_data("zzzz", fmts)
+        DDP(languages=langs, settings=st).get_date_data("12.03.2015", fmts)
+        search("am 12.03.2015 und zzzz", languages=langs, settings=st)
+        return (st, langs, fmts), before
     if kind == "parse-after-foreign-parse":
         s = S([("d", 2), "/03/2015 10:20:30 ET"])
         parse("14 mars 2015")                     # an earlier call, in another language, through the module-level parser
@@ -403,6 +436,9 @@ def h_repeat(kind):
     def fn():
         n = C.ns()
         _fresh_loader(n)
+        if kind == "calendars-same-string":
+            # the calendar parsers hand "now" to the third-party converters (real code, concrete values only): fixed clock
+            core.CUR.notes["clock"] = dates.SDateTime(2020, 6, 15, 12, 0, 0, 0)
         v = {"d": C.field("d", 13, 28)} if kind == "parse-after-foreign-parse" else {}
         got, want = _repeat_seq(kind, n.D.DateDataParser, n.SE.search_dates, n.dateparser.parse, lambda parts: tmpl(parts, v))
         return C.outcome(_same(got, want), dict(v), "repeat")
@@ -622,7 +658,7 @@ def native_check(spec):
             exp = _dt.datetime(2020, 4, w["d"])
             if do == exp and getattr(dd.locale, "shortname", dd.locale) != "pt":
                 return {"violates": True, "detail": desc + "; expected locale pt (first of the given DEFAULT_LANGUAGES)"}
-        elif kind == "skip-token-concatenation":
+        elif kind in ("skip-token-concatenation", "same-string-other-skip-tokens", "normalize-off-other-skip-tokens"):
             exp = _dt.datetime(w["Y"], 4, w["d"])
         else:
             exp = _dt.datetime(w["Y"], w["m"], w["d"])
